@@ -1333,12 +1333,13 @@ impl UndoOperation for SwitchToFontPage {
 #[derive(Default)]
 pub struct SetFont {
     font_page: usize,
-    old: BitFont,
+    /// font that was in the slot before; None: the slot was empty
+    old: Option<BitFont>,
     new: BitFont,
 }
 
 impl SetFont {
-    pub fn new(font_page: usize, old: BitFont, new: BitFont) -> Self {
+    pub fn new(font_page: usize, old: Option<BitFont>, new: BitFont) -> Self {
         Self { font_page, old, new }
     }
 }
@@ -1349,7 +1350,12 @@ impl UndoOperation for SetFont {
     }
 
     fn undo(&mut self, edit_state: &mut EditState) -> EngineResult<()> {
-        edit_state.get_buffer_mut().set_font(self.font_page, self.old.clone());
+        match &self.old {
+            Some(font) => edit_state.get_buffer_mut().set_font(self.font_page, font.clone()),
+            None => {
+                edit_state.get_buffer_mut().remove_font(self.font_page);
+            }
+        }
         Ok(())
     }
 
